@@ -84,6 +84,10 @@ def check(ctx):
     r = ctx.tlc("TimersMC", "TimersMCthorough.cfg" if ctx.thorough else "TimersMC.cfg", workers=16, timeout=1500)
     if not r.ok:
         ctx.model_violation(r, "Timers invariants")
+    if ctx.thorough:   # beyond the exhaustive bound: random behaviours with 4 timers, longer time line, more callback effects
+        r = ctx.tlc("TimersMC", "TimersSim.cfg", workers=16, simulate=5000, depth=80, coverage=False, timeout=1500)
+        if not r.ok:
+            ctx.model_violation(r, "Timers invariants (simulation, 4 timers)")
     r, g = ctx.tlc_graph("TimersMC", "TimersGraph.cfg", workers=8)
     if not r.ok:
         ctx.model_violation(r, "Timers graph")
